@@ -483,10 +483,11 @@ fn depth_part(acc: &mut Acc, cx: &RunCtx) {
         }
     }
     // a *small* native stack: the guard has to move to heap segments from the very first levels on
-    // (the unchanged tree parses these on 48 KiB; 64 KiB leaves the harness' own frames some room)
+    // (the unchanged tree parses these on 12 KiB, the smallest stack a thread can be given here; 24 KiB
+    // leaves twice that for the frames before the first guarded call)
     for s in 0..n_shapes {
-        for d in [60usize, 300, 10_000] {
-            jobs.push(vec!["c12-depth".to_string(), s.to_string(), d.to_string(), "64".to_string()]);
+        for (d, kib) in [(60usize, "24"), (300, "24"), (10_000, "24"), (10_000, "64")] {
+            jobs.push(vec!["c12-depth".to_string(), s.to_string(), d.to_string(), kib.to_string()]);
         }
     }
     // one deepest run of the first shape at a million levels in both tiers (the property's own figure)
@@ -506,7 +507,7 @@ fn depth_part(acc: &mut Acc, cx: &RunCtx) {
         }
         match (c.code, &line) {
             (Some(0), Some(l)) => {
-                acc.count(if job[3] == "64" { "depth_runs_survived_on_a_64KiB_stack" } else { "depth_runs_survived_on_a_512KiB_stack" }, 1);
+                acc.count(if job[3] != "512" { "depth_runs_survived_on_a_24_or_64KiB_stack" } else { "depth_runs_survived_on_a_512KiB_stack" }, 1);
                 acc.maxc("max_depth_survived", d);
                 acc.maxc("max_child_peak_rss_mib", c.peak_rss_kb / 1024);
                 acc.nontrivial_enum += 1;
@@ -657,11 +658,11 @@ pub fn run(cx: &RunCtx) -> i32 {
         cx,
         acc,
         Finish {
-            rule: format!("(1) every guarded recursive definition whose body has <= {size} nodes over a class with 5 guarded reference shapes (prefix, skip-any, delimited, optional, inside a bounded repetition), built with recursive() and with declare/define, x every input <= {max_len} over {{a,b,é}}: acceptance, output with the extent of every node at every recursion level, emitted errors, primary error, probe trace and inspector state against the reference model (whose reference rule is the unrolling), in parse and check mode; for bodies with <= 2 references also real-vs-real against the explicit (max input length + 1)-fold unrolling; 3 tower grammars x depths 0..64; {n_rand} random definitions incl. two mutually recursive ones x 8 inputs <= 14. (2) 11 ways of juggling handles (clone / boxed / Rc / Either / moved / dropped before use, declare-define in both orders, mutual) x all inputs <= {} over {{a,b,x}} and towers to depth 40 against a hand-written depth counter. (3) 10 nesting shapes (recursive, declare/define, mutual through boxed, right-nested list, Pratt prefix chain, right- and left-associative infix chains, postfix chain, Pratt with recursive parenthesised atom, through memoized) x depths up to 10^6 in child processes on a thread with a 512 KiB stack, and depths 60 / 300 / 10^4 on a thread with a 64 KiB stack (the guard has to carry the recursion from its first levels on): must exit normally with the tower's depth. (4) a second define() (3 variants) must panic, the message naming the harness' call site, and the parser must keep its first definition. (5) a small-depth slice under Miri. Non-trivial: reference evaluation reached recursion depth >= 2 / tower of depth >= 2 / depth run survived", cx.t(6, 8)),
+            rule: format!("(1) every guarded recursive definition whose body has <= {size} nodes over a class with 5 guarded reference shapes (prefix, skip-any, delimited, optional, inside a bounded repetition), built with recursive() and with declare/define, x every input <= {max_len} over {{a,b,é}}: acceptance, output with the extent of every node at every recursion level, emitted errors, primary error, probe trace and inspector state against the reference model (whose reference rule is the unrolling), in parse and check mode; for bodies with <= 2 references also real-vs-real against the explicit (max input length + 1)-fold unrolling; 3 tower grammars x depths 0..64; {n_rand} random definitions incl. two mutually recursive ones x 8 inputs <= 14. (2) 11 ways of juggling handles (clone / boxed / Rc / Either / moved / dropped before use, declare-define in both orders, mutual) x all inputs <= {} over {{a,b,x}} and towers to depth 40 against a hand-written depth counter. (3) 10 nesting shapes (recursive, declare/define, mutual through boxed, right-nested list, Pratt prefix chain, right- and left-associative infix chains, postfix chain, Pratt with recursive parenthesised atom, through memoized) x depths up to 10^6 in child processes on a thread with a 512 KiB stack, and depths 60 / 300 / 10^4 on threads with a 24 KiB and a 64 KiB stack (the guard has to carry the recursion from its first levels on): must exit normally with the tower's depth. (4) a second define() (3 variants) must panic, the message naming the harness' call site, and the parser must keep its first definition. (5) a small-depth slice under Miri. Non-trivial: reference evaluation reached recursion depth >= 2 / tower of depth >= 2 / depth run survived", cx.t(6, 8)),
             exhaustive: false,
             exhaustive_note: format!("bodies <= {size} nodes x inputs <= {max_len}: complete"),
             assumptions: vec![
-                "'limited by memory': shown up to 10^6 levels on a 512 KiB thread stack and up to 10^4 levels on a 64 KiB thread stack under a 24 GiB address-space limit; running out of that memory is inconclusive, dying by a signal is a violation".into(),
+                "'limited by memory': shown up to 10^6 levels on a 512 KiB thread stack and up to 10^4 levels on 24 KiB / 64 KiB thread stacks under a 24 GiB address-space limit; running out of that memory is inconclusive, dying by a signal is a violation".into(),
                 "Miri runs without the stacker feature (psm is FFI), so the stack-growth guard itself is exercised natively only".into(),
             ],
             require: vec![
@@ -669,7 +670,7 @@ pub fn run(cx: &RunCtx) -> i32 {
                 ("unrolling_differentials".into(), 10_000),
                 ("handle_juggling_cases".into(), 1000),
                 ("depth_runs_survived_on_a_512KiB_stack".into(), 10),
-                ("depth_runs_survived_on_a_64KiB_stack".into(), 10),
+                ("depth_runs_survived_on_a_24_or_64KiB_stack".into(), 10),
                 ("max_depth_survived".into(), 1_000_000),
                 ("second_define_refused_at_the_definition_site".into(), 3),
                 ("random_mutually_recursive_grammars".into(), 1000),
